@@ -114,6 +114,24 @@ def _run_structural(ctx):
             if isinstance(n, ast.Return) and isinstance(n.value, ast.Call):
                 c = idx.canon(n.value.func, sd.module)
                 sargs = list(n.value.args) + [k.value for k in n.value.keywords if k.arg == "value"]
+                pool_cls = idx.lookup(c) if c else None
+                from ..index import ClassInfo as _CI
+                if isinstance(pool_cls, _CI):
+                    # a pool written in the package takes the semaphore's place: its acquire/release protocol is evaluated under the schedules that matter
+                    from .poolmodel import pool_protocol_witness
+                    from ..loader import AnalysisError
+                    n_p, d_p, u_p = pool_protocol_witness(ctx, pool_cls)
+                    pcon = f"{pool_cls.module.relpath}::{pool_cls.name}::protocol"
+                    if u_p is not None and not d_p:
+                        raise AnalysisError(f"{pcon}: the core pool is a class of the package built on constructs this analysis does not model ({u_p}); no verdict")
+                    for d_ in d_p[:4]:
+                        r5.violation(pcon, d_, pool_cls.where)
+                    if not d_p:
+                        r5.ok(pcon, f"{n_p} schedules (limit, cancellation of a waiter before and after the hand-off, hand-off with a second waiter): no core lost or handed out twice", pool_cls.where)
+                    if len(n.value.args) >= 1 and isinstance(n.value.args[0], ast.Attribute) and dotted(n.value.args[0].value) == "self":
+                        info["max_cores"] = n.value.args[0].attr
+                        ok = True
+                    continue
                 if c in ("asyncio.Semaphore", "asyncio.BoundedSemaphore") and len(sargs) == 1:
                     a = sargs[0]
                     if isinstance(a, ast.Attribute) and dotted(a.value) == "self":
